@@ -204,6 +204,144 @@ impl Queryable for AltB {
     }
 }
 
+/// AltS: a view with structural sharing - equal sub-documents are stored once (hash-consing, as a YAML-alias or
+/// persistent-data-structure backed type would do); through the accessors it is indistinguishable from the value
+#[derive(Clone, Debug, PartialEq, Default)]
+pub struct AltS(pub std::sync::Arc<SNode>);
+
+#[derive(Clone, Debug, PartialEq, Default)]
+pub enum SNode {
+    #[default]
+    Null,
+    Bool(bool),
+    Int(i64),
+    Float(f64),
+    Str(String),
+    Arr(Vec<AltS>),
+    Obj(Vec<(String, AltS)>),
+}
+
+impl From<&str> for AltS {
+    fn from(s: &str) -> Self {
+        AltS(std::sync::Arc::new(SNode::Str(s.to_string())))
+    }
+}
+impl From<String> for AltS {
+    fn from(s: String) -> Self {
+        AltS(std::sync::Arc::new(SNode::Str(s)))
+    }
+}
+impl From<bool> for AltS {
+    fn from(b: bool) -> Self {
+        AltS(std::sync::Arc::new(SNode::Bool(b)))
+    }
+}
+impl From<i64> for AltS {
+    fn from(i: i64) -> Self {
+        AltS(std::sync::Arc::new(SNode::Int(i)))
+    }
+}
+impl From<f64> for AltS {
+    fn from(f: f64) -> Self {
+        AltS(std::sync::Arc::new(SNode::Float(f)))
+    }
+}
+impl From<Vec<AltS>> for AltS {
+    fn from(v: Vec<AltS>) -> Self {
+        AltS(std::sync::Arc::new(SNode::Arr(v)))
+    }
+}
+
+impl Queryable for AltS {
+    fn get(&self, key: &str) -> Option<&Self> {
+        let key = strip_quotes(key);
+        match &*self.0 {
+            SNode::Obj(m) => m.iter().find(|(k, _)| k == key).map(|(_, v)| v),
+            _ => None,
+        }
+    }
+    fn as_array(&self) -> Option<&Vec<Self>> {
+        match &*self.0 {
+            SNode::Arr(a) => Some(a),
+            _ => None,
+        }
+    }
+    fn as_object(&self) -> Option<Vec<(&String, &Self)>> {
+        match &*self.0 {
+            SNode::Obj(m) => Some(m.iter().map(|(k, v)| (k, v)).collect()),
+            _ => None,
+        }
+    }
+    fn as_str(&self) -> Option<&str> {
+        match &*self.0 {
+            SNode::Str(s) => Some(s),
+            _ => None,
+        }
+    }
+    fn as_i64(&self) -> Option<i64> {
+        match &*self.0 {
+            SNode::Int(i) => Some(*i),
+            _ => None,
+        }
+    }
+    fn as_f64(&self) -> Option<f64> {
+        match &*self.0 {
+            SNode::Float(f) => Some(*f),
+            SNode::Int(i) => Some(*i as f64),
+            _ => None,
+        }
+    }
+    fn as_bool(&self) -> Option<bool> {
+        match &*self.0 {
+            SNode::Bool(b) => Some(*b),
+            _ => None,
+        }
+    }
+    fn null() -> Self {
+        AltS(std::sync::Arc::new(SNode::Null))
+    }
+}
+
+impl jsonpath_rust::JsonPath for AltS {}
+
+fn hash_cons(v: &Value, memo: &mut std::collections::HashMap<String, AltS>) -> AltS {
+    let key = serde_json::to_string(v).unwrap();
+    if let Some(x) = memo.get(&key) {
+        return x.clone();
+    }
+    let node = match v {
+        Value::Null => SNode::Null,
+        Value::Bool(b) => SNode::Bool(*b),
+        Value::Number(n) => match n.as_i64() {
+            Some(i) => SNode::Int(i),
+            None => SNode::Float(n.as_f64().unwrap()),
+        },
+        Value::String(s) => SNode::Str(s.clone()),
+        Value::Array(a) => SNode::Arr(a.iter().map(|x| hash_cons(x, memo)).collect()),
+        Value::Object(m) => SNode::Obj(m.iter().map(|(k, x)| (k.clone(), hash_cons(x, memo))).collect()),
+    };
+    let x = AltS(std::sync::Arc::new(node));
+    memo.insert(key, x.clone());
+    x
+}
+
+impl View for AltS {
+    fn from_json(v: &Value) -> Self {
+        hash_cons(v, &mut std::collections::HashMap::new())
+    }
+    fn to_json(&self) -> Value {
+        match &*self.0 {
+            SNode::Null => Value::Null,
+            SNode::Bool(b) => Value::Bool(*b),
+            SNode::Int(i) => Value::from(*i),
+            SNode::Float(f) => Number::from_f64(*f).map(Value::Number).unwrap_or(Value::Null),
+            SNode::Str(s) => Value::String(s.clone()),
+            SNode::Arr(a) => Value::Array(a.iter().map(|x| x.to_json()).collect()),
+            SNode::Obj(m) => Value::Object(m.iter().map(|(k, v)| (k.clone(), v.to_json())).collect::<Map<_, _>>()),
+        }
+    }
+}
+
 pub trait View: Queryable {
     fn from_json(v: &Value) -> Self;
     fn to_json(&self) -> Value;
@@ -325,11 +463,13 @@ pub struct Doc3 {
     pub b: AltB,
     /// AltA over the member-sorted document
     pub c: AltA,
+    /// structurally shared (hash-consed) view
+    pub s: AltS,
 }
 
 impl Doc3 {
     pub fn new(v: &Value) -> Doc3 {
-        Doc3 { v: v.clone(), a: AltA::from_json(v), b: AltB::from_json(v), c: AltA::from_json(&sorted_members(v)) }
+        Doc3 { v: v.clone(), a: AltA::from_json(v), b: AltB::from_json(v), c: AltA::from_json(&sorted_members(v)), s: AltS::from_json(v) }
     }
 }
 
@@ -356,7 +496,8 @@ pub fn lockstep(acc: &mut Acc, q: &str, d: &Doc3, class: &str) {
             acc.nontrivial += 1;
         }
     }
-    for (name, r) in [("AltA (association-list objects, one number type)", &r1), ("AltB (strict numeric accessors)", &r2)] {
+    let r4 = run_on(q, &d.s);
+    for (name, r) in [("AltA (association-list objects, one number type)", &r1), ("AltB (strict numeric accessors)", &r2), ("AltS (equal sub-documents share storage)", &r4)] {
         if r != &r0 {
             acc.viol(
                 format!("{} on {}: serde_json::Value gives {:?} but the equivalent {} gives {:?}", q, d.v, r0, name, r),
@@ -386,7 +527,7 @@ pub fn run(tier: &str) -> i32 {
     panel.extend(crate::gen::docs::panel());
     panel.push(json!([1, 1.0, 1.5, -1, 0, 100, 1e2, "1", "a", true, null, [1], [1.0], {"a": 1}, {"a": 1.0}]));
     for d in &panel {
-        if AltA::from_json(d).to_json() != *d || AltB::from_json(d).to_json() != *d {
+        if AltA::from_json(d).to_json() != *d || AltB::from_json(d).to_json() != *d || AltS::from_json(d).to_json() != *d {
             eprintln!("MACHINERY: a view does not round-trip {}", d);
             return 2;
         }
@@ -394,6 +535,11 @@ pub fn run(tier: &str) -> i32 {
     panel.extend([
         json!({"items": ["a", "b", "c"], "m": {"0": "zero", "1": "one"}, "a/b": 1, "a": {"b": 2}, "x~1y": 1, "x/y": 2, "~0": 3, "~": 4}),
         json!([{"0": 1}, [0, 1]]),
+    ]);
+    panel.extend([
+        json!({"a": {"x": [1]}, "b": {"x": [1]}}),
+        json!([[{"k": [1, 2]}], [{"k": [1, 2]}], {"k": [1, 2]}]),
+        json!({"p": [[1], [1], [[1]]], "q": [[1], [[1]]]}),
     ]);
     let docs: Vec<Doc3> = panel.iter().map(Doc3::new).collect();
     // 1. sentence set x panel
@@ -487,7 +633,7 @@ pub fn run(tier: &str) -> i32 {
         .reduce(Acc::new, Acc::merge);
     run.finish(
         a.merge(b).merge(c),
-        "one case = (query, document) evaluated in lock-step at three implementations of Queryable: serde_json::Value, AltA (objects as association lists, a single float-backed number type that still answers as_i64 for integers) and AltB (strict accessors: as_f64 is None for integers and as_i64 is None for floats; objects as parallel vectors), each converted from the same JSON value preserving member order; oracle: identical path lists and identical values (serialized) ; spaces: the generated sentence set x document panel, the comparison table packed into one document, the slice cube; non-trivial = the Value evaluation selects at least one node",
+        "one case = (query, document) evaluated in lock-step at several implementations of Queryable: serde_json::Value, AltS (hash-consed: equal sub-documents share storage), AltA (objects as association lists, a single float-backed number type that still answers as_i64 for integers) and AltB (strict accessors: as_f64 is None for integers and as_i64 is None for floats; objects as parallel vectors), each converted from the same JSON value preserving member order; oracle: identical path lists and identical values (serialized) ; spaces: the generated sentence set x document panel, the comparison table packed into one document, the slice cube; non-trivial = the Value evaluation selects at least one node",
         &["`Queryable::get` strips the enclosing quotes of the key exactly as the implementation for serde_json::Value does (the trait documentation leaves that to the implementor)", "the extension functions of C14 are defined for serde_json::Value only and are not part of this check"],
         true,
         json!({"panel_documents": docs.len(), "sentences": sents.len()}),
@@ -503,6 +649,7 @@ pub fn replay(case: &Value, _run: &Run) -> Acc {
     println!("AltA  : {:?}", run_on(q, &d.a));
     println!("AltB  : {:?}", run_on(q, &d.b));
     println!("AltA over member-sorted document : {:?}", run_on(q, &d.c));
+    println!("AltS  : {:?}", run_on(q, &d.s));
     lockstep(&mut acc, q, &d, "replay");
     acc
 }
